@@ -147,6 +147,7 @@ cdef inline int _write_utf8(Writer* writer, Py_UCS4 symbol):
         return _write_pct(writer,  <uint8_t>(0x80 | (utf & 0x3f)), True)
     elif 0xD800 <= utf <= 0xDFFF:
         # surogate pair, ignored
+        writer.changed = 1
         return 0
     elif utf < 0x10000:
         if _write_pct(writer, <uint8_t>(0xe0 | (utf >> 12)), True) < 0:
